@@ -10,4 +10,8 @@ mod c12;
 #[cfg(kani)]
 mod c17;
 #[cfg(kani)]
+mod w8;
+#[cfg(kani)]
+mod c17p;
+#[cfg(kani)]
 mod c20;
